@@ -10,4 +10,5 @@ void pthread_layer_reset();
 using MutexObserver = std::function<void(int op, long index, int task)>;
 void set_mutex_observer(const MutexObserver &f);
 long mutex_count();
+int mutexes_held(int task);   // number of simulated mutexes currently owned by the task
 }  // namespace sim
